@@ -75,6 +75,7 @@ struct Scenario {
   std::vector<int> init;                      // ops applied before exploration starts (default schedule)
   int depth = 2;
   int dev_bound = -1;                         // -1 = all schedules
+  bool alloc_descending = false;              // seam S8: Edge/Node objects at descending addresses in every invocation
   std::set<std::string> tags;                 // free-form feature tags (for evidence and predicates)
   js::J raw;
 };
